@@ -336,10 +336,18 @@ fn visit_tcp(
         _ => None,
     };
 
+    // The MTU implied by an MSS is the MSS plus the minimal IP and TCP header sizes, in bytes
+    // (`ip_package_header_length` is in 32-bit words for IPv4 and covers the IP header only).
+    let min_total_header: u16 = match version {
+        IpVersion::V4 => 40,
+        IpVersion::V6 => 60,
+        IpVersion::Any => 0,
+    };
+
     let wsize: WindowSize = detect_win_multiplicator(
         tcp.get_window(),
         mss.unwrap_or(0),
-        ip_package_header_length as u16,
+        min_total_header,
         olayout.contains(&TcpOption::TS),
         &version,
     );
